@@ -617,10 +617,10 @@ impl<'a> Sim<'a> {
                     _ => act::MarketsChange::Update(vec![market]),
                 })
             }
-            ActOp::Ics20Withdrawal { asset, amt, channel, fee_asset, bridge, event } => {
+            ActOp::Ics20Withdrawal { asset, amt, channel, fee_asset, bridge, event, ret, rollup_memo } => {
                 let d = denom(*asset);
                 let payer = bridge.map_or(*signer, |b| k.addr(b));
-                let memo = if bridge.is_some() {
+                let memo = if bridge.is_some() || *rollup_memo {
                     serde_json::to_string(&astria_core::protocol::memos::v1::Ics20WithdrawalFromRollup {
                         rollup_block_number: 1 + u64::from(*event),
                         rollup_withdrawal_event_id: format!("event-{event}"),
@@ -636,7 +636,7 @@ impl<'a> Sim<'a> {
                     denom: d,
                     destination_chain_address: "cosmos1dest".to_string(),
                     return_address: astria_core::primitive::v1::Address::builder()
-                        .array(*signer)
+                        .array(ret.map_or(*signer, |r| k.addr(r)))
                         .prefix(crate::test_utils::ASTRIA_PREFIX)
                         .try_build()
                         .unwrap(),
@@ -2010,6 +2010,11 @@ impl<'a> Sim<'a> {
             // C18: a received packet that was refused must register no deposit
             if !extra.is_empty() && self.model.recv_predictions.iter().any(|p| !p.3) {
                 self.viol.push("C18", "refused-packet-left-deposit", "deposit-after-error-ack", self.step, format!("h={h}: a block whose received packet(s) could not be applied stores deposits nobody backed: {extra:?}"));
+            }
+            if !extra.is_empty() {
+                // C03: every transaction of the block that took effect is in the reference model, so a
+                // stored deposit it does not know was written by something that did not take effect
+                self.viol.push("C03", "write-outlived-failed-transaction", "deposit-of-a-transaction-that-did-not-take-effect", self.step, format!("h={h}: the stored block carries deposits no successful action of the block produced: {extra:?}"));
             }
             self.viol.push("C04", "deposits-differ-from-reference", sig, self.step, format!("h={h}: stored deposits not backed by a successful lock/transfer: {extra:?}; credits without deposit: {missing:?}"));
         }
